@@ -189,26 +189,8 @@ def run(ctx):
               "AM1 uses 4 and PM3 uses 2 core-core Gaussians", f"Gaussian term counts are {counts}")
 
     # ------------------------------------------------------------------ R5
-    iso = en.func("elec_energy_isolated_atom")
-    ret = [st for st in ast.walk(iso) if isinstance(st, ast.Assign) and norm(st.targets[0]) == "Eiso"]
-    if not ret:
-        raise AnalysisError("elec_energy_isolated_atom: Eiso not found")
-    terms = []
-
-    def flat(e):
-        if isinstance(e, ast.BinOp) and isinstance(e.op, ast.Add):
-            flat(e.left)
-            flat(e.right)
-        else:
-            terms.append(e)
-    flat(ret[0].value)
-    pairs = []
-    for t in terms:
-        if isinstance(t, ast.BinOp) and isinstance(t.op, ast.Mult) and isinstance(t.left, ast.Name):
-            pairs.append((t.left.id, norm(t.right)))
-    okp = len(pairs) == 7 and all(r == f"const.{l}c[Z]" for l, r in pairs) and {l for l, _ in pairs} == {"uss", "upp", "gss", "gpp", "gsp", "gp2", "hsp"}
-    ctx.check(okp, "R5", en, ret[0], "elec_energy_isolated_atom", ret[0], "Eiso = sum of seven parameter * matching coefficient table products",
-              f"isolated-atom energy pairs are {pairs}: a parameter is multiplied by another parameter's occupation coefficients")
+    from ..assembly import check_energy_functions
+    check_energy_functions(ctx, "R5", which=("iso",))
 
     # ------------------------------------------------------------------ R6
     sig = {q: [a.arg for a in m.func(q).args.args] for m, q in ((fk, "fock"), (fu, "fock_u_batch"), (gx, "G"))}
